@@ -10,6 +10,7 @@ Oracle : textDocument/definition returns the declaration the model's reference s
 """
 from __future__ import annotations
 
+import json
 import os
 
 from hypothesis import strategies as st
@@ -37,7 +38,7 @@ QUERY_ROLES = {"use", "call", "typeref", "extends", "member", "only", "alias", "
                "resultuse", "usemod", "decl"}
 
 
-def expected_locs(o, decls):
+def expected_locs(o, decls, stmt_lines=None):
     """Acceptable (file, line, col) targets for occurrence o."""
     e = o.ent
     if o.role in ("resultuse", "resultdecl"):
@@ -46,7 +47,14 @@ def expected_locs(o, decls):
         out = [decls[e.id]] if e.id in decls else []
         return out + ["resultdecl"]
     if e.id in decls:
-        return [decls[e.id]]
+        out = [decls[e.id]]
+        # inside SELECT TYPE (x) the name x denotes the construct's associate entity: the SELECT TYPE statement is an
+        # acceptable answer as well, and so are its type guard statements (fortls answers with column 0 of the guard)
+        for d, heads in getattr(o.stmt, "seltype", ()):
+            for so in heads:
+                if d is e and stmt_lines is not None and id(so) in stmt_lines:
+                    out.append(("line",) + tuple(stmt_lines[id(so)][:2]))
+        return out
     return []
 
 
@@ -69,7 +77,7 @@ def check_program(ctx, prog, layout, offsets, scratch, roles=QUERY_ROLES):
     for idx, o in enumerate(r.occs):
         if o.role not in roles or o.ent.kind == "construct":
             continue
-        exp = expected_locs(o, decls)
+        exp = expected_locs(o, decls, r.stmt_lines)
         if not exp:
             continue
         off = offsets[idx % len(offsets)] % len(o.text)
@@ -102,6 +110,9 @@ def check_program(ctx, prog, layout, offsets, scratch, roles=QUERY_ROLES):
                     go = by_pos.get(got)
                     if go is not None and go.ent is o.ent and go.role in ("resultdecl", "decl"):
                         ok = True
+            elif isinstance(e, tuple):
+                if got is not None and got[:2] == e[1:3]:
+                    ok = True
             elif got == (e.file, e.line, e.col):
                 ok = True
         if ok:
@@ -126,6 +137,11 @@ def check_program(ctx, prog, layout, offsets, scratch, roles=QUERY_ROLES):
         label = f"def:{o.role}:{o.ent.kind}:via-{bp}:{outcome}"
         if outcome in ("wrong:entity-leaked-through-a-default-PRIVATE-module", "wrong:name-hidden-by-a-rename-list-still-resolves-to-the-renamed-entity"):
             label = "def:" + outcome
+        bp_any = fws.binding_path(o.scope, o.text) if o.scope is not None and o.role in ("use", "call", "typeref", "extends", "visref", "alias") else ""
+        if outcome == "none" and bp_any.startswith("use-rename-list-reexport"):
+            # one merged (only-list, rename-map) record per module: when the module that holds the entity is also reached
+            # by a path that does not carry the rename, the later path's map entry replaces the right one
+            label = "def:rename-list-of-a-re-exported-entity:not-resolved"
         if o.role == "member" and o.tok_i >= 2 and o.stmt.toks[o.tok_i - 1] == "%" and (id(o.stmt), o.tok_i - 2) in fail_by_tok:
             # the base of this % chain was already bound wrongly: same root cause, same signature
             label = fail_by_tok[(id(o.stmt), o.tok_i - 2)]
@@ -134,10 +150,10 @@ def check_program(ctx, prog, layout, offsets, scratch, roles=QUERY_ROLES):
             # one root cause: the name after '=>' in a USE rename clause is looked up as an ordinary name
             # of the current scope instead of in the named module
             label = "def:remote-name-in-use-rename-clause-not-resolved-in-the-module"
-        e0 = exp[0] if exp[0] != "resultdecl" else None
+        e0 = exp[0] if exp[0] != "resultdecl" and not isinstance(exp[0], tuple) else None
         discs.append(Disc(label, f"definition on {o.text!r} at {o.file}:{o.line}:{o.col}+{off} ({r.lines[o.file][o.line].strip()[:80]!r}) "
                                  f"expected {(e0.file, e0.line, e0.col) if e0 else 'result declaration'} got {got}",
-                          {"query": [o.file, o.line, o.col + off], "expected": [[e.file, e.line, e.col] for e in exp if e != "resultdecl"],
+                          {"query": [o.file, o.line, o.col + off], "expected": [[e.file, e.line, e.col] for e in exp if e != "resultdecl" and not isinstance(e, tuple)],
                            "accept_resultdecl": "resultdecl" in exp}))
     return discs, r, nq
 
@@ -145,7 +161,26 @@ def check_program(ctx, prog, layout, offsets, scratch, roles=QUERY_ROLES):
 case_st = st.tuples(fmodel.program_st(), fmodel.layout_st, st.lists(st.integers(0, 30), min_size=3, max_size=7))
 
 
+# hand-written programs for constructs the model does not generate references to; (signature, files, query, expected)
+FIXED_PROGRAMS = [
+    ("def:enumerator-not-indexed",
+     {"f0.f90": "module m_enum\n  implicit none\n  enum, bind(c)\n    enumerator :: e_red = 4, e_blue\n  end enum\ncontains\n  subroutine s()\n"
+                "    integer :: i\n    i = e_red + e_blue\n  end subroutine s\nend module m_enum\n"},
+     ["f0.f90", 8, 9], [["f0.f90", 3, 18]]),
+    ("def:enumerator-not-indexed",
+     {"f0.f90": "module m_enum\n  implicit none\n  enum, bind(c)\n    enumerator :: e_red = 4, e_blue\n  end enum\nend module m_enum\n",
+      "f1.f90": "program p\n  use m_enum, only: e_blue\n  implicit none\n  print *, e_blue\nend program p\n"},
+     ["f1.f90", 3, 12], [["f0.f90", 3, 29]]),
+]
+
+
 def run(ctx):
+    if ctx.shard == 0:
+        for sig, files, query, expected in FIXED_PROGRAMS:
+            case = {"files": files, "query": query, "expected": expected, "signature": sig}
+            ctx.case(("fixed-program", json.dumps(files, sort_keys=True), tuple(query)), True, classes=["hand-written:" + sig.split(":")[1]])
+            ctx.check(replay(ctx, case), case)
+
     def oracle(v):
         prog, layout, offsets = v
         discs, r, nq = check_program(ctx, prog, layout, offsets, ctx.scratch)
